@@ -855,7 +855,7 @@ static void watchdog_handler(int, siginfo_t *, void *) {
 	wd_idle = 0;
 	if (!r->res.v.set) {
 		r->res.v.set = true; r->res.v.cls = "no_progress";
-		r->res.v.msg = "the code under test ran for more than 3 s without reaching any instrumented access (a loop with no shared-memory access that cannot be left)";
+		r->res.v.msg = "the code under test consumed more than 3 s of CPU without reaching any instrumented access (a loop with no shared-memory access that cannot be left)";
 		r->res.v.step = r->steps; r->res.v.task = r->cur; r->res.v.opid = r->tasks[r->cur].opid; r->res.v.opkind = r->tasks[r->cur].opkind;
 	}
 	if (r->cur != 0) { r->cur = 0; setcontext(&r->main_ctx); }
@@ -876,9 +876,9 @@ static void install_handlers() {
 	struct sigaction wa; memset(&wa, 0, sizeof wa);
 	wa.sa_sigaction = watchdog_handler; wa.sa_flags = SA_SIGINFO | SA_ONSTACK | SA_NODEFER | SA_RESTART;
 	sigemptyset(&wa.sa_mask);
-	sigaction(SIGALRM, &wa, nullptr);
+	sigaction(SIGPROF, &wa, nullptr); // CPU time of this process, not wall time: a starved worker must not look hung
 	struct itimerval it; it.it_interval.tv_sec = 1; it.it_interval.tv_usec = 0; it.it_value = it.it_interval;
-	setitimer(ITIMER_REAL, &it, nullptr);
+	setitimer(ITIMER_PROF, &it, nullptr);
 }
 
 static uint64_t hash_plan(const Plan &p) {
